@@ -302,7 +302,7 @@ type sysB struct {
 }
 
 func specB() xstate.Spec {
-	maxes := []int32{2, 5, 8}
+	maxes := []int32{2, 5, 8, 0} // (0: an edit to "nothing may be in flight" is an edit like any other)
 	curs := []int32{0, 1, 3, 5, 6}
 	return xstate.Spec{
 		Name: "seq-maxinflight",
@@ -417,7 +417,7 @@ func specPath() xstate.Spec {
 					}
 				}
 			}
-			return append(evs, "resize 2", "resize 8")
+			return append(evs, "resize 2", "resize 8", "resize 0")
 		},
 		Apply: func(si interface{}, e string) error {
 			sys := si.(*sysP)
